@@ -418,9 +418,7 @@ func c09Configs(kinds []backends.Kind) []struct {
 	}
 	for _, k := range kinds {
 		opts := []backends.Options{{}, {HostBucket: true}, {TimeSkew: true}}
-		if !k.IsSingle() {
-			opts = append(opts, backends.Options{AutoBucket: true})
-		}
+		opts = append(opts, backends.Options{AutoBucket: true})
 		if k == backends.Mem {
 			opts = append(opts, backends.Options{NoVersioning: true}, backends.Options{UnimplPageError: true, IntegrityOff: true})
 		}
@@ -533,7 +531,7 @@ func c09Prop(c *evid.Collector, cfgs []struct {
 
 func c09Run(t *testing.T, c *evid.Collector) {
 	cfgs := c09Configs(kindsFromEnv(backends.All))
-	rapidRun(t, "grammar", evid.Scale(900, 25000), c09Prop(c, cfgs, 25))
+	rapidRun(t, "grammar", evid.Scale(1100, 25000), c09Prop(c, cfgs, 25))
 }
 
 // FuzzC09 is the coverage-guided target of the thorough tier: the same
